@@ -14,6 +14,8 @@ import GoDebian.Lemmas.CodecConvert
 import GoDebian.Lemmas.CodecMarshal
 import GoDebian.Lemmas.CodecRecord
 import GoDebian.Lemmas.CodecCustom
+import GoDebian.Lemmas.CodecText
+import GoDebian.Lemmas.CodecPass
 
 namespace GoDebian.Props.C09
 open GoDebian GoDebian.Deb822 GoDebian.Codec GoDebian.Spec.Codec
@@ -233,6 +235,116 @@ example :
         [(B "Package", B "hello"), (B "Version", B "1:2.30-10"), (B "Architecture", B "--"),
          (B "Size", B "-5"), (B "Count", B "7"), (B "Essential", B "yes"),
          (B "Binary", B "a b,c, d"), (B "Tag", B "x y,z"), (B "Nums", B "\n1\n0")]⟩ := by
+  decide +kernel
+
+/-! ### Stage D — the round trip through the text -/
+
+/-- `Marshal` then `Unmarshal`: a well-formed record of a flat schema whose fields all have
+    well-formed names, are not `multiline` and render as one trimmed line (`textRec`), with
+    at least one field written (`someWritten`; an empty paragraph is no paragraph), is
+    marshalled to a text that unmarshals to the same record. -/
+theorem C09_roundtrip (s : Schema) (r : List Val) (hs : flatSchema s = true) (hr : wfRec s r)
+    (ht : textRec s r = true) (hne : someWritten s r = true) :
+    ∃ text r', marshal s r = .ok text ∧ unmarshal s text = .ok r' ∧ SameRec s r r' :=
+  Lemmas.Codec.roundtrip_text hs hr ht hne
+
+/-- marshalling a well-formed record of a flat schema cannot fail -/
+theorem C09_marshal_ok (s : Schema) (r : List Val) (hs : flatSchema s = true) (hr : wfRec s r) :
+    ∃ p, convertToParagraph s r = .ok p :=
+  Lemmas.Codec.convert_ok_of_wf hs hr
+
+/-- the flat sample without its multi-line list -/
+def textSample : Schema := flatSample.take 8 ++ flatSample.drop 9
+def textRecord : List Val := flatRecord.take 8 ++ flatRecord.drop 9
+
+example : flatSchema textSample = true ∧ textRec textSample textRecord = true ∧
+    someWritten textSample textRecord = true ∧
+    marshal textSample textRecord = .ok (Bytes.ofString
+      ("Package: hello\nVersion: 1:2.30-10\nArchitecture: --\nSize: -5\nCount: 7\n" ++
+       "Essential: yes\nBinary: a b,c, d\nTag: x y,z\n")) := by
+  decide +kernel
+
+example : wfRec textSample textRecord := by
+  refine ⟨trivial, ?_, ?_, (show -(2^63 : Int) ≤ -5 ∧ (-5 : Int) < 2^63 by decide),
+    (show 7 < 2^64 by decide), trivial, ?_, ?_, trivial, trivial⟩
+  · exact C09_lawful_version (Bytes.ofString "1:2.30-10") _ (by decide +kernel) true
+  · exact ⟨_, rfl, C09_lawful_arch (Bytes.ofString "--") _ (by decide +kernel) false⟩
+  · intro x hx
+    simp only [List.mem_cons, List.not_mem_nil, or_false] at hx
+    rcases hx with rfl | rfl <;> exact ⟨trivial, _, rfl, by decide +kernel⟩
+  · intro x hx
+    simp only [List.mem_cons, List.not_mem_nil, or_false] at hx
+    rcases hx with rfl | rfl <;> exact ⟨trivial, _, rfl, by decide +kernel⟩
+
+/-- `textRec` cannot be dropped: a string that starts with a blank is written on a
+    continuation line and comes back with a trailing newline; a multi-line value comes back
+    with one, too. -/
+example :
+    let s : Schema := [.mk "K" [75] .str [] [] false false false]
+    textRec s [.str (Bytes.ofString " x")] = false ∧
+    marshal s [.str (Bytes.ofString " x")] = .ok (Bytes.ofString "K: \n  x\n") ∧
+    (match unmarshal s (Bytes.ofString "K: \n  x\n") with
+     | .ok [.str b] => b == Bytes.ofString " x\n"
+     | _ => false) = true ∧
+    (match unmarshal s (Bytes.ofString "K: a\n b\n") with
+     | .ok [.str b] => b == Bytes.ofString "a\nb\n"
+     | _ => false) = true := by
+  decide +kernel
+
+/-! ### Stage E — pass-through with an embedded Paragraph -/
+
+/-- A struct that embeds the `Paragraph` it was decoded from (first field, anonymous), its
+    other fields named, with distinct keys: marshalling keeps every field of the embedded
+    paragraph the schema does not know, with its value and in its place; a known field
+    that is written carries its new rendering, not the embedded text; a known optional
+    field whose rendering is empty is not written at all — it does not come back from the
+    embedded paragraph. -/
+theorem C09_passthrough (f0 : FieldDesc) (s' : Schema) (p0 : Paragraph) (r' : List Val)
+    (p : Paragraph) (h0a : f0.anonymous = true) (h0k : f0.kind = .para)
+    (hs' : ∀ g ∈ s', g.anonymous = false) (hnd : (knownKeys (f0 :: s')).Nodup)
+    (hp0 : p0.order.Nodup) (hlisted : ∀ k, (lookup k p0.values).isSome = true → k ∈ p0.order)
+    (h : convertToParagraph (f0 :: s') (.para p0 :: r') = .ok p) :
+    (∀ k, k ∉ knownKeys (f0 :: s') → p.get k = p0.get k) ∧
+    (p.order.filter (fun k => !(knownKeys (f0 :: s')).contains k) =
+      p0.order.filter (fun k => !(knownKeys (f0 :: s')).contains k)) ∧
+    (∀ f v data, (f, v) ∈ (f0 :: s').zip (.para p0 :: r') → f.anonymous = false → f.key ≠ [45] →
+      marshalValue 16 f.kind f.delim v = .ok data → (data ≠ [] ∨ f.required = true) →
+      p.get f.key = (if f.multiline then 10 :: data else data)) ∧
+    (∀ f v, (f, v) ∈ (f0 :: s').zip (.para p0 :: r') → f.anonymous = false → f.key ≠ [45] →
+      marshalValue 16 f.kind f.delim v = .ok [] → f.required = false → f.key ∉ p.order) := by
+  have hcount : ∀ k, (knownKeys (f0 :: s')).count k ≤ 1 := List.nodup_iff_count.mp hnd
+  obtain ⟨h1, h2⟩ := Lemmas.Codec.passthrough h0a h0k hs' hp0 hlisted h
+  refine ⟨h1, h2, fun f v data hfv ha hk hm hw => ?_, fun f v hfv ha hk hm hr => ?_⟩
+  · have hl := Lemmas.Codec.lookup_convert h hfv ha hk hm (hcount _)
+    have hc : ¬ (data.isEmpty && !f.required) = true := by
+      rcases hw with hw | hw
+      · simp [hw]
+      · simp [hw]
+    rw [if_neg hc] at hl
+    unfold Paragraph.get
+    rw [hl]
+    rfl
+  · have := Lemmas.Codec.mem_order_convert h hfv ha hk hm (hcount _)
+    rw [this, hr]
+    simp
+
+/-- The scenario of the repaired defect "cleared known field resurrected": a paragraph with
+    two known and two unknown fields is decoded, `Package` is changed, `Note` is cleared;
+    what is written has the new `Package`, no `Note`, and both unknown fields in place. -/
+example :
+    let B := Bytes.ofString
+    let s : Schema :=
+      [.mk "Paragraph" (B "Paragraph") .para [] [] false false true,
+       .mk "Package" (B "Package") .str [] [] true false false,
+       .mk "Note" (B "Note") .str [] [] false false false,
+       .mk "Size" (B "Size") .int [] [] false false false]
+    let p0 : Paragraph := ⟨[B "Package", B "X-Custom", B "Note", B "Y"],
+      [(B "Package", B "old"), (B "X-Custom", B "keep"), (B "Note", B "stale"), (B "Y", B "z")]⟩
+    (knownKeys s).Nodup ∧ p0.order.Nodup ∧
+    (∀ k ∈ p0.values.map Prod.fst, k ∈ p0.order) ∧
+    convertToParagraph s [.para p0, .str (B "new"), .str [], .int 3] =
+      .ok ⟨[B "Package", B "X-Custom", B "Y", B "Size"],
+        [(B "Package", B "new"), (B "X-Custom", B "keep"), (B "Y", B "z"), (B "Size", B "3")]⟩ := by
   decide +kernel
 
 end GoDebian.Props.C09
